@@ -27,8 +27,8 @@ LEVEL_TEXT = (
     "Proved in Lean 4 over exact rationals, for every value-sorted arrangement of the merged entries (NumPy's "
     "argsort is not stable) with non-negative weights and for all five methods: merge_within_minmax (every output "
     "lies between the smallest and largest merged value), q0_q100 (desired weight ≤ 0 gives the smallest, ≥ total "
-    "the largest merged value — this is the code after the two fix: commits), merge_monotone_in_q for "
-    "lower/higher/midpoint/linear and, as _partial, nearest (monotone between pinned ends; interior validated). "
+    "the largest merged value — this is the code after the two fix: commits), merge_monotone_in_q for all five "
+    "methods (nearest_mono is the delicate case); mergePercentilesWith_spec ties the executable model to these hypotheses. "
     "That the merged extremes are the data's min/max rests on NumPy's per-chunk percentile at q=0/100 (trusted, "
     "validated). Float interpolation rounding and nanpercentile (rechunk + NumPy per block) are validated only."
 )
